@@ -8,7 +8,7 @@ ids = [json.loads(l)['id'] for l in open(os.path.join(here, 'properties.jsonl'))
 checks = []
 for pid in ids:
     c = PROPS.get(pid)
-    if not c or not c.get('claimed', True):
+    if not c or not c.get('claimed', False):
         continue
     checks.append(dict(
         property_id=pid,
